@@ -164,11 +164,23 @@ Definition ret_matches (r : retv) (rc rd : Z) : bool :=
 (* errors.Is(err, rpc.ErrEngineClosed) on the error value behind each class *)
 Definition is_engine_closed (r : retv) : bool :=
   match r with RClosedRetryable | RRejected => true | _ => false end.
+(* errors.Is(err, S) for the error value behind each class and the sentinels of the translator's
+   table (xlate/specs/C26.json): 1 ErrConnDead, 2 rpc.ErrEngineClosed, 3 context.Canceled,
+   4 net.ErrClosed, 5 EPIPE, 6 ECONNRESET, 7 context.DeadlineExceeded, 8 io.EOF,
+   9 io.ErrUnexpectedEOF; ids >= 1000 are sentinels the table does not know. The engine's errors
+   wrap only ErrEngineClosed, context.Canceled (ctx.Err(), reqCtx.Err(), a Canceled send) and
+   the decoder's io.ErrUnexpectedEOF; RSendErr stands for a transmission error that is none of
+   the sentinels. *)
+Definition is_canceled (r : retv) : bool :=
+  match r with RCtx | RClosedAcked | RSendCanc => true | _ => false end.
+Definition err_is (r : retv) (s : Z) : bool :=
+  if Z.eqb s 2 then is_engine_closed r
+  else if Z.eqb s 3 then is_canceled r
+  else if Z.eqb s 9 then (match r with RDecodeErr => true | _ => false end)
+  else false.
 (* both classification functions of the code base (generated from the source) *)
-Definition retryable (r : retv) : bool := retryable_pool_go false (is_engine_closed r).
-(* the error behind every class of this model is never ErrConnDead / net.ErrClosed / EPIPE /
-   ECONNRESET (RSendErr stands for a transmission error that is none of these) *)
-Definition retryable_tg (r : retv) : bool := retryable_telegram_go false (is_engine_closed r) false false false.
+Definition retryable (r : retv) : bool := retryable_pool_go (err_is r).
+Definition retryable_tg (r : retv) : bool := retryable_telegram_go (err_is r).
 
 Definition is_returned (p : cpc) : bool := match p with PReturned _ => true | _ => false end.
 Definition is_closed_retryable (r : retv) : bool := match r with RClosedRetryable => true | _ => false end.
